@@ -115,7 +115,10 @@ func runHandleDirect(t *testing.T, sc *SeqScn, trace bool, owners []string) *Out
 						// right after issue the value denotes the path it was issued for, unless someone released it meanwhile or the table may have overflowed (eviction frees the value for reuse: the C06 known finding)
 						hs, _, _ := absnfs.VerifHandleSnapshot(fm)
 						o.Tick()
-						if got, live := hs[h]; live && got != p && !sh.wasReleased(h) && int(sh.allocs.Load()) <= d.Max {
+						if got, live := hs[h]; len(d.Threads) == 1 && (!live || got != p) {
+							// one task only: nothing can have happened between the return and this look
+							o.Vio("C05.dead-on-issue", "direct", "%s: Allocate(%s) returned %d, which is not live or denotes another path right after issue (live=%v, denotes %q; limit %d)", where, p, h, live, got, d.Max)
+						} else if live && got != p && !sh.wasReleased(h) && int(sh.allocs.Load()) <= d.Max {
 							o.Vio("C05.issued-handle-resolves-elsewhere", "direct", "%s: Allocate(%s) returned %d, which denotes %s", where, p, h, got)
 						}
 					case "get":
@@ -152,7 +155,7 @@ func runHandleDirect(t *testing.T, sc *SeqScn, trace bool, owners []string) *Out
 	for _, th := range d.Threads {
 		total += len(th)
 	}
-	o.NonTrivial = total >= 4 && len(d.Threads) >= 2
+	o.NonTrivial = total >= 4 && (len(d.Threads) >= 2 || total >= 20)
 	if res != nil {
 		for _, p := range res.Panics {
 			o.Vio("C05.panic", "direct,"+panicFacts(p), "%s", firstLines(p, 12))
@@ -176,7 +179,33 @@ func runHandleDirect(t *testing.T, sc *SeqScn, trace bool, owners []string) *Out
 	return o
 }
 
+// genHandleLong: one task, a long allocation history that overflows the table many times over, with
+// releases in between so that freed ids are reused while evictions go on.
+func genHandleLong(r *simrt.Rand, kind string) *SeqScn {
+	max := []int{1, 2, 3, 5, 10, 16, 20, 25, 32, 50}[r.Int(10)]
+	d := &HandleScn{Max: max, Paths: 2*max + 5 + r.Int(20), Sched: SeqSched(r.Uint64())}
+	n := 3*max + 20 + r.Int(5*max+20)
+	var ops []HOp
+	for i := 0; i < n; i++ {
+		switch r.Pick([]int{78, 8, 13, 1}) {
+		case 0:
+			ops = append(ops, HOp{Op: "alloc", Path: r.Int(d.Paths)})
+		case 1:
+			ops = append(ops, HOp{Op: "get", Idx: r.Int(1000)})
+		case 2:
+			ops = append(ops, HOp{Op: "release", Idx: r.Int(1000)})
+		case 3:
+			ops = append(ops, HOp{Op: "releaseall"})
+		}
+	}
+	d.Threads = [][]HOp{ops}
+	return &SeqScn{Kind: kind, Direct: d, Sched: d.Sched}
+}
+
 func genHandleDirect(r *simrt.Rand, kind string) *SeqScn {
+	if r.Pct(35) {
+		return genHandleLong(r, kind)
+	}
 	d := &HandleScn{Max: []int{1, 2, 3, 5, 100}[r.Int(5)], Paths: 1 + r.Int(4), Sched: RandSched(r)}
 	d.Sched.HorizonS = 600
 	nt := 2 + r.Int(3)
